@@ -77,6 +77,7 @@ func (d *oaDoc) judgeRequest(w *rt.WireReq) (matched bool, errs []string, ambigu
 	if op == nil {
 		return false, nil, ""
 	}
+	d.undecided = 0
 	q := u.Query()
 	cookies := map[string]string{}
 	for _, line := range headerVals(w.Header, "Cookie") {
@@ -171,6 +172,11 @@ func (d *oaDoc) judgeRequest(w *rt.WireReq) (matched bool, errs []string, ambigu
 				d.eval(schema, body, "body", &errs, 0)
 			}
 		}
+	}
+	if len(errs) == 0 && d.undecided > 0 {
+		// accepted only because a documented format could not be decided for some string of the request (for
+		// instance the fragments of a header array element that holds a comma)
+		return true, nil, "a documented string format cannot be decided for a value of this request"
 	}
 	return true, errs, ""
 }
